@@ -81,4 +81,10 @@ var plans = map[string]plan{
 		Rule: "each case is a generated package with exactly one injected fault: an unsupported constituent (chan, func, interface, unsafe.Pointer, unnamed non-comparable struct) as argument, field, slice/array element, map key/value, pointer target or nested two levels down, for one of 22 typed plugin forms; or a misuse from a 75-entry catalogue (wrong arity, mismatched argument types, non-function / non-slice / non-map arguments, unordered types for min/max, variadic signatures, missing error/bool results); or a broken user file (syntax error, undefined identifier/type, missing import, generics, alias, cyclic type ...), optionally with healthy neighbour calls; judged: terminates (60 s then 150 s re-run; a run takes about 1 s), exit status 0/1 without a Go panic trace, non-empty message when non-zero, and on exit 0 a derived.gen.go that parses and a package that type-checks; non-trivial = fault below the top level of the argument or in a user file; distinct by (plugin, fault, position, sources)",
 		Assumptions: []string{"the only wall-clock verdict: a hang is asserted after 60 s and again after 150 s (about 100x a normal run)", "whether the message names the call or type is not judged"},
 	},
+	"C08": {
+		Quick:    tierPlan{Shards: 16, Checks: 2, Shrink: "60s", Limit: 30 * time.Minute},
+		Thorough: tierPlan{Shards: 16, Checks: 25, Shrink: "5m", Limit: 4 * time.Hour},
+		Rule: "each case is a generated module (package p with 1-3 families of mutually assignable types - several named types and the unnamed type over one underlying type - used side by side as struct fields under hash/equal/compare/clone/gostring/deepcopy plus 2-12 random calls, package q importing p with calls of its own); judged: one sha256 of p/derived.gen.go over N identical fresh runs (quick 6, thorough 25) and over 6 further invocation spellings (., ./..., import path, package list in both orders); non-trivial = >= 2 tie members or >= 3 plugins; distinct by sources",
+		Assumptions: []string{"map iteration order is re-randomised by the Go runtime on every run; a very skewed choice could survive N runs"},
+	},
 }
